@@ -73,6 +73,7 @@ type Run struct {
 	samples    []interface{}
 	notes      []string
 	inexhaust  []string
+	machinery  []string
 }
 
 var (
@@ -126,6 +127,18 @@ func (r *Run) NotExhaustive(why string) {
 	r.mu.Lock()
 	defer r.mu.Unlock()
 	r.inexhaust = append(r.inexhaust, why)
+}
+
+// Machinery records a failure of the checking machinery itself (a child that produced
+// no result, a failing schedule that did not reproduce on replay, ...). It is never a
+// verdict: Finish exits 2 (unless real violations were found, which take precedence).
+func (r *Run) Machinery(msg string) {
+	r.mu.Lock()
+	defer r.mu.Unlock()
+	fmt.Fprintf(os.Stderr, "MACHINERY-ERROR: %s\n", msg)
+	if len(r.machinery) < 50 {
+		r.machinery = append(r.machinery, msg)
+	}
 }
 
 // Note adds a free-text note to the evidence.
@@ -225,6 +238,10 @@ func (r *Run) Finish(cov Coverage) {
 	if len(r.notes) > 0 {
 		cov["notes"] = r.notes
 	}
+	if len(r.machinery) > 0 {
+		cov["machinery_errors"] = r.machinery
+		cov["exhaustive"] = false
+	}
 	var kh []string
 	for s := range r.knownHit {
 		kh = append(kh, s)
@@ -271,6 +288,9 @@ func (r *Run) Finish(cov Coverage) {
 	fmt.Printf("%s %s: violations=%d known=%d %s wall=%.1fs\n", r.ID, r.Tier, len(r.seenSig), len(kh), strings.Join(keys, " "), time.Since(r.start).Seconds())
 	if len(r.seenSig) > 0 {
 		os.Exit(1)
+	}
+	if len(r.machinery) > 0 {
+		os.Exit(2)
 	}
 	os.Exit(0)
 }
